@@ -515,6 +515,10 @@ long long c_voronoi(long long nrows, long long ncols,
     if(npoints < 1)
         return GRID_ERROR + __LINE__;
 
+    /* Cell coordinates use idxcell%ncols */
+    if(nrows < 1 || ncols < 1)
+        return GRID_ERROR + __LINE__;
+
     for(j=0; j<npoints; j++)
         weights[j] = 0;
 
